@@ -1,5 +1,6 @@
 import GrinVerif.Drv.Common
 import GrinVerif.Model.KeysSig
+import GrinVerif.Model.KeysBuild
 /-! Driver glue for the `keys` domain (property C20): recomputes every observation printed by
 `harness/src/bin/keys.rs` with the model `GrinVerif/Model/Keys.lean`.
 
@@ -49,6 +50,37 @@ def parseStep (s : String) : Option Step :=
 def parseSteps (s : String) : Option (List Step) :=
   let inner := (s.drop 1).dropEnd 1 |>.toString
   if inner.isEmpty then some [] else (inner.splitOn ",").mapM parseStep
+
+/-- element of the run `exchange`: the plain combinators as in `parseStep` (`c:` = `coinbase_input`,
+the same opening as `input`), and `T;i:v:k;o:v:k;…` = `initial_tx` with that body -/
+def parseXStep (s : String) : Option XStep :=
+  match s.splitOn ";" with
+  | "T" :: parts =>
+    let os := parts.mapM fun p => match p.splitOn ":" with
+      | ["i", v, k] => match v.toNat?, scalar? k with
+        | some v, some k => some (true, (⟨v, k⟩ : Opening))
+        | _, _ => none
+      | ["o", v, k] => match v.toNat?, scalar? k with
+        | some v, some k => some (false, (⟨v, k⟩ : Opening))
+        | _, _ => none
+      | _ => none
+    os.map fun l => .initialTx ((l.filter (·.1)).map (·.2)) ((l.filter (!·.1)).map (·.2))
+  | [t] =>
+    match t.splitOn ":" with
+    | ["c", v, k] => match v.toNat?, scalar? k with
+      | some v, some k => some (.base (.input ⟨v, k⟩))
+      | _, _ => none
+    | _ => (parseStep t).map .base
+  | _ => none
+
+def parseXSteps (s : String) : Option (List XStep) :=
+  let inner := (s.drop 1).dropEnd 1 |>.toString
+  if inner.isEmpty then some [] else (inner.splitOn ",").mapM parseXStep
+
+/-- a body side as the harness prints it: `value:key` tokens, sorted as strings -/
+def showOpenings (l : List Opening) : String :=
+  let toks := l.map fun o => s!"{o.value}:{toHex (beBytes 32 o.blind)}"
+  "[" ++ ",".intercalate (toks.toArray.qsort (· < ·)).toList ++ "]"
 
 def REWARD : Nat := 60000000000
 
@@ -248,6 +280,21 @@ def handle (st : St) (args : List String) (impl : String) : St × Verdict :=
       let (ins, outs, bs) := partialTransaction [] [] steps
       match bs with
       | .ok bs => (st, cmpSpec s!"{toHex (beBytes 32 bs)} {ins.length} {outs.length}" impl)
+      | _ => (st, cmpSpec "err" impl)
+    | none => (st, .unknown)
+  -- run `exchange`: element lists with `initial_tx`, every permutation
+  | ["xbuild", fee, ex, steps] => match nat? fee, scalar? ex, parseXSteps steps with
+    | some fee, some ex, some steps =>
+      match xTransactionWithKernel steps fee ex with
+      | some tx => (st, cmpSpec
+          s!"{toHex (beBytes 32 tx.offset)} {showOpenings tx.ins} {showOpenings tx.outs} {(txValidate tx).show}" impl)
+      | none => (st, cmpSpec "err" impl)
+    | _, _, _ => (st, .unknown)
+  | ["xpartial", steps] => match parseXSteps steps with
+    | some steps =>
+      let (ins, outs, bs) := xPartialTransaction [] [] steps
+      match bs with
+      | .ok bs => (st, cmpSpec s!"{toHex (beBytes 32 bs)} {showOpenings ins} {showOpenings outs}" impl)
       | _ => (st, cmpSpec "err" impl)
     | none => (st, .unknown)
   -- signatures (run `sigs`): honest ones verify (rule-fixed), negative controls do not
